@@ -219,14 +219,14 @@ class ShapelyBoundary(BoundaryDomain):
     def sample_random_uniform(
         self, n=None, d=None, params=Points.empty(), device="cpu"
     ):
-        n = self.domain._compute_number_of_points(n, d, params)
+        n = ShapelyPolygon._compute_number_of_points(self, n, d, params)
         line_points = torch.rand(n, device=device) * self.domain.polygon.boundary.length
         return self._transform_points_to_boundary(
             n, torch.sort(line_points).values, device
         )
 
     def sample_grid(self, n=None, d=None, params=Points.empty(), device="cpu"):
-        n = self.domain._compute_number_of_points(n, d, params)
+        n = ShapelyPolygon._compute_number_of_points(self, n, d, params)
         line_points = torch.linspace(
             0, self.domain.polygon.boundary.length, n + 1, device=device
         )[:-1]
